@@ -3,6 +3,7 @@
 //! the traces are judged by TLC against the TLA+ specification.
 
 mod adapters;
+mod algo;
 mod obs;
 mod obs_async;
 mod threads;
@@ -38,6 +39,7 @@ fn main() {
             let rep = arg_after(&args, "--repeat").map(|s| s.parse().unwrap()).unwrap_or(1);
             threads::replay(&args[2], &args[3], rep);
         }
+        "algo" => algo::run(&args[2], &args[3]),
         "vecops" => vecops::run(&args[2], &args[3]),
         "vec-replay" => vec::replay(&args[2], &args[3]),
         other => {
